@@ -3,37 +3,55 @@
 (*   objstorage/objstorageprovider/remote.go          sharedUnref, sharedCreateRef    *)
 (*   objstorage/objstorageprovider/remote_backing.go  AttachRemoteObjects             *)
 (*   objstorage/objstorageprovider/shared_writable.go Finish (object, then own ref)   *)
-(* One shared object in one remote.Storage.  Every action is ONE remote.Storage call  *)
-(* of one provider (the granularity at which providers on different nodes interleave),*)
+(*   objstorage/objstorageprovider/provider.go        Remove (may be retried on error)*)
+(* One shared object in one remote.Storage.  Every action is ONE remote.Storage       *)
+(* operation of one provider (the granularity at which providers on different nodes   *)
+(* interleave; an upload = CreateObject + Write* + Close takes effect at Close),      *)
 (* except GetBacking, which is local (RemoteObjectBacking + handle.Close: the handle  *)
 (* is closed before the race so that isProtected does not mask it).                   *)
-(* Providers: 0 created the object (object + own ref exist initially); provider p > 0 *)
-(* attaches from a backing handed over by provider p-1 (chained), then removes.       *)
+(* Providers: 0 creates the object (upload of the object, then of its own ref marker);*)
+(* provider p > 0 attaches from a backing handed over by provider p-1 (chained), then *)
+(* removes.                                                                           *)
+(* Faults: every remote operation may FAIL (transient error, no effect on the store). *)
+(* A failed upload surfaces at CreateObject, at Write (objects only: markers are      *)
+(* empty) or at Close - three actions with the same effect on the store, so that      *)
+(* every generated schedule names the call at which the real code gets the error.     *)
+(* A failed operation must be reported by the API: Create/Attach whose marker upload  *)
+(* failed does not succeed; Remove that failed may be called again.                   *)
 EXTENDS Integers, FiniteSets, TLC
 CONSTANTS N,                        \* number of providers (2 or 3)
+          MaxFaults,                \* bound: failing remote operations in a behaviour
           BugCheckBeforeCreateRef,  \* seeded bug: origin's ref is checked before the own ref is created
-          BugDeleteWithoutList      \* seeded bug: sharedUnref deletes the object without listing the other refs
+          BugDeleteWithoutList,     \* seeded bug: sharedUnref deletes the object without listing the other refs
+          BugDropCloseError         \* seeded bug: sharedCreateRef drops the error of the marker writer's Close
 Prov == 0..(N - 1)
 From(p) == p - 1
 VARIABLES obj,       \* the object exists in the store
           refs,      \* providers whose ref marker exists in the store
-          pc,        \* per provider: idle, backed, check, latecreate, have, list, delobj, fu_del, fu_list, fu_delobj, gone, failed
+          pc,        \* per provider: c_obj, c_ref (0) / idle, backed, check, latecreate (p > 0), have, list, delobj,
+                     \*   fu_del, fu_list, fu_delobj, rfailed (Remove returned an error), gone, failed
           attached,  \* providers whose create/attach succeeded and that have not started removing
-          listed     \* result of the provider's last List(refs)
-vars == <<obj, refs, pc, attached, listed>>
+          listed,    \* result of the provider's last List(refs)
+          faults     \* failed remote operations so far
+vars == <<obj, refs, pc, attached, listed, faults>>
 
-Init == /\ obj = TRUE /\ refs = {0} /\ attached = {0} /\ listed = [p \in Prov |-> {}]
-        /\ pc = [p \in Prov |-> IF p = 0 THEN "have" ELSE "idle"]
+Init == /\ obj = FALSE /\ refs = {} /\ attached = {} /\ listed = [p \in Prov |-> {}] /\ faults = 0
+        /\ pc = [p \in Prov |-> IF p = 0 THEN "c_obj" ELSE "idle"]
 
 Goto(p, s) == pc' = [pc EXCEPT ![p] = s]
 
+(* Create + Write + Finish on provider 0: upload of the object (takes effect at Close) ... *)
+CCreateObj(p) == /\ pc[p] = "c_obj" /\ obj' = TRUE /\ Goto(p, "c_ref") /\ UNCHANGED <<refs, attached, listed, faults>>
+(* ... then sharedCreateRef: upload of the own ref marker; Finish returns nil *)
+CCreateRef(p) == /\ pc[p] = "c_ref" /\ refs' = refs \cup {p} /\ attached' = attached \cup {p}
+                 /\ Goto(p, "have") /\ UNCHANGED <<obj, listed, faults>>
 (* local: provider p-1 encodes the backing while it has the object and hands it to p *)
 GetBacking(p) == /\ p # 0 /\ pc[p] = "idle" /\ From(p) \in attached
-                 /\ Goto(p, "backed") /\ UNCHANGED <<obj, refs, attached, listed>>
+                 /\ Goto(p, "backed") /\ UNCHANGED <<obj, refs, attached, listed, faults>>
 (* AttachRemoteObjects: sharedCreateRef (CreateObject(own ref) + Close) ... *)
 ACreateRef(p) == /\ pc[p] = "backed"
                  /\ refs' = (IF BugCheckBeforeCreateRef THEN refs ELSE refs \cup {p})
-                 /\ Goto(p, "check") /\ UNCHANGED <<obj, attached, listed>>
+                 /\ Goto(p, "check") /\ UNCHANGED <<obj, attached, listed, faults>>
 (* ... then Size(origin's ref): found => success, else sharedUnref(own) and fail *)
 ACheck(p) == /\ pc[p] = "check"
              /\ (IF From(p) \in refs
@@ -41,34 +59,63 @@ ACheck(p) == /\ pc[p] = "check"
                        THEN attached' = attached /\ Goto(p, "latecreate")
                        ELSE attached' = attached \cup {p} /\ Goto(p, "have"))
                  ELSE attached' = attached /\ Goto(p, "fu_del"))
-             /\ UNCHANGED <<obj, refs, listed>>
+             /\ UNCHANGED <<obj, refs, listed, faults>>
 ALate(p) == /\ pc[p] = "latecreate" /\ refs' = refs \cup {p} /\ attached' = attached \cup {p}
-            /\ Goto(p, "have") /\ UNCHANGED <<obj, listed>>
-(* Remove = sharedUnref: Delete(own ref); List(ref prefix); if none left Delete(object) *)
-RDelRef(p) == /\ pc[p] \in {"have", "fu_del"}
+            /\ Goto(p, "have") /\ UNCHANGED <<obj, listed, faults>>
+(* Remove = sharedUnref: Delete(own ref); List(ref prefix); if none left Delete(object).  *)
+(* "rfailed": an earlier Remove returned an error; the object is still in the provider's  *)
+(* list and Remove is called again (Delete tolerates a missing marker).                   *)
+RDelRef(p) == /\ pc[p] \in {"have", "fu_del", "rfailed"}
               /\ refs' = refs \ {p} /\ attached' = attached \ {p}
-              /\ Goto(p, IF BugDeleteWithoutList THEN (IF pc[p] = "have" THEN "delobj" ELSE "fu_delobj")
-                         ELSE (IF pc[p] = "have" THEN "list" ELSE "fu_list"))
+              /\ Goto(p, IF BugDeleteWithoutList THEN (IF pc[p] = "fu_del" THEN "fu_delobj" ELSE "delobj")
+                         ELSE (IF pc[p] = "fu_del" THEN "fu_list" ELSE "list"))
               /\ listed' = [listed EXCEPT ![p] = {}]
-              /\ UNCHANGED obj
+              /\ UNCHANGED <<obj, faults>>
 RList(p) == /\ pc[p] \in {"list", "fu_list"}
             /\ listed' = [listed EXCEPT ![p] = refs]
             /\ Goto(p, IF refs = {} THEN (IF pc[p] = "list" THEN "delobj" ELSE "fu_delobj")
                        ELSE (IF pc[p] = "list" THEN "gone" ELSE "failed"))
-            /\ UNCHANGED <<obj, refs, attached>>
+            /\ UNCHANGED <<obj, refs, attached, faults>>
 RDelObj(p) == /\ pc[p] \in {"delobj", "fu_delobj"}
               /\ obj' = FALSE
               /\ Goto(p, IF pc[p] = "delobj" THEN "gone" ELSE "failed")
-              /\ UNCHANGED <<refs, attached, listed>>
-Next == \E p \in Prov : GetBacking(p) \/ ACreateRef(p) \/ ACheck(p) \/ ALate(p) \/ RDelRef(p) \/ RList(p) \/ RDelObj(p)
+              /\ UNCHANGED <<refs, attached, listed, faults>>
+
+(* ---- failing remote operations: no effect on the store, the error goes to the caller ---- *)
+Uploading(p) == pc[p] \in {"c_obj", "c_ref", "backed", "latecreate"}
+(* where the provider continues after the failure of its current operation *)
+AfterFail(p) == CASE pc[p] \in {"c_obj", "c_ref", "backed", "latecreate"} -> "failed"  \* Finish / Attach return the error
+                  [] pc[p] = "check" -> "fu_del"                                         \* Size(origin) failed: clean up, then fail
+                  [] pc[p] \in {"have", "rfailed", "list", "delobj"} -> "rfailed"        \* Remove returns the error
+                  [] OTHER -> "failed"                                                   \* clean-up of a failed attach: errors ignored
+FailStep(p) == /\ faults < MaxFaults /\ faults' = faults + 1
+               /\ Goto(p, AfterFail(p))
+               /\ attached' = (IF pc[p] \in {"have", "rfailed"} THEN attached \ {p} ELSE attached)   \* Remove was called
+               /\ UNCHANGED <<obj, refs, listed>>
+FailCreate(p) == Uploading(p) /\ FailStep(p)                      \* CreateObject returns the error
+FailWrite(p) == pc[p] = "c_obj" /\ FailStep(p)                    \* Write returns the error
+(* Close returns the error.  BugDropCloseError: the marker upload's Close error is dropped, the caller goes on *)
+FailClose(p) == /\ Uploading(p)
+                /\ (IF BugDropCloseError /\ pc[p] \in {"c_ref", "backed"}
+                    THEN /\ faults < MaxFaults /\ faults' = faults + 1
+                         /\ Goto(p, IF pc[p] = "c_ref" THEN "have" ELSE "check")
+                         /\ attached' = (IF pc[p] = "c_ref" THEN attached \cup {p} ELSE attached)
+                         /\ UNCHANGED <<obj, refs, listed>>
+                    ELSE FailStep(p))
+Fail(p) == /\ pc[p] \in {"check", "have", "rfailed", "fu_del", "list", "fu_list", "delobj", "fu_delobj"} /\ FailStep(p)
+
+Next == \E p \in Prov : \/ CCreateObj(p) \/ CCreateRef(p) \/ GetBacking(p) \/ ACreateRef(p) \/ ACheck(p) \/ ALate(p)
+                        \/ RDelRef(p) \/ RList(p) \/ RDelObj(p)
+                        \/ FailCreate(p) \/ FailWrite(p) \/ FailClose(p) \/ Fail(p)
 Spec == Init /\ [][Next]_vars
 
-(* C41: a provider whose attach succeeded (and that has not started removing) can still read the object; *)
+(* C41: a provider whose create/attach succeeded (and that has not started removing) can still read the object; *)
 (* the object is deleted only when nobody holds it *)
 Safe == \A p \in attached : obj
 DeleteOnlyUnreferenced == [][(obj /\ ~obj') => attached = {}]_vars
+(* create/attach succeeds only with the provider's own marker in the store *)
 AttachedHaveRef == \A p \in attached : p \in refs
-(* no garbage at the end: when everybody is done the object is gone *)
+(* no garbage at the end: when everybody is done (and no operation failed) the object is gone *)
 Finished == \A p \in Prov : pc[p] \in {"gone", "failed"}
-NoLeak == Finished => (~obj /\ refs = {})
+NoLeak == (Finished /\ faults = 0) => (~obj /\ refs = {})
 =============================================================================
